@@ -166,7 +166,7 @@ fn toggles() -> Vec<(String, &'static str, Value)> {
     }
     t.push(("/steps/1/branches/1".into(), "needs", json!(["b1"])));
     // acts
-    for p in ["/steps/0/acts/0", "/steps/0/acts/1", "/steps/1/branches/0/steps/0/acts/0"] {
+    for (pi, p) in ["/steps/0/acts/0", "/steps/0/acts/1", "/steps/1/branches/0/steps/0/acts/0"].into_iter().enumerate() {
         for (f, v) in [
             ("name", json!("act ✓")),
             ("desc", json!("d")),
@@ -177,9 +177,9 @@ fn toggles() -> Vec<(String, &'static str, Value)> {
             ("if", json!("b")),
             ("inputs", vars.clone()),
             ("outputs", json!({"ao": null})),
-            ("setup", json!([{"id": format!("asu{}", p.len()), "uses": "acts.core.msg", "on": "updated"}])),
-            ("catches", json!([{"on": "e9", "steps": [{"id": format!("ac{}", p.len())}]}])),
-            ("timeout", json!([{"on": "1d", "steps": [{"id": format!("at{}", p.len())}]}])),
+            ("setup", json!([{"id": format!("asu{}", pi), "uses": "acts.core.msg", "on": "updated"}])),
+            ("catches", json!([{"on": "e9", "steps": [{"id": format!("ac{}", pi)}]}])),
+            ("timeout", json!([{"on": "1d", "steps": [{"id": format!("at{}", pi)}]}])),
         ] {
             t.push((p.into(), f, v));
         }
